@@ -264,8 +264,38 @@ def check_C11(ctx):
                   ASSUME_COMMON + ["document kinds are rendered from a fixed table of texts; the element type is an untagged enum of integers and small maps"])
 
 
+# ------------------------------------------------------------------------------------------------
+# C05
+# ------------------------------------------------------------------------------------------------
+def check_C05(ctx):
+    q = ctx.quick()
+    cases = ctx.path("cases.ndjson")
+    run_mc(ctx, "MC_TypedCursor", dict(MaxEv=6 if q else 7), ["OptLaw", "TupSeqLaw", "StructMapLaw", "EmitCase"],
+           workers=8, timeout=3000, cases_out=cases, label="MC_TypedCursor")
+    ctx.exhaustive = True
+    recs = ctx.path("recs.ndjson")
+    st = run_vh(ctx, ["c05", "--cases", cases, "--out", recs, "--random", 20000 if q else 300000, "--seed", ctx.seed])
+    ctx.evaluations += st["records"]
+    ctx.distinct_nontrivial += st["nontrivial"]
+    ctx.samples += st["samples"]
+    ctx.notes["schemas_in_family"] = st["schemas"]
+    ctx.notes["records_with_ok_value"] = st["ok_values"]
+    mism = run_tv(ctx, "TV_TypedCursor", recs, timeout=3000)
+    classify_mismatches(ctx, mism, recs, {"C04-kemn-key": lambda rec, d: has_kemn_key(rec.get("raw", []))},
+                        "typed result differs from TypedCursor!FaithfulDoc (reference interpreter on the parser's event stream)")
+    return finish(ctx, "model_checking",
+                  "cases: every alias-free document up to MaxEv events over field/variant names and scalars 1 x ~ true, enumerated by "
+                  "TLC, x a family of 45 schemas of depth <= 2 (exhaustive product), plus random schemas of depth <= 3 with "
+                  "schema-directed matching documents mutated 0-2 times (one element more/fewer, wrong kind, unknown field or "
+                  "variant, null for a container, quoted scalar); every pair is run through from_str, with_deserializer_from_str, "
+                  "from_multiple and read; non-trivial = distinct (schema, text) pairs",
+                  ASSUME_COMMON + ["the run-time Schema seed issues the typed deserialize_* calls a derived impl would (tuple "
+                                   "visitors stop at their arity, struct visitors ignore unknown fields and reject duplicates)"])
+
+
 CHECKS = {
     "C02": check_C02,
+    "C05": check_C05,
     "C11": check_C11,
     "C07": check_C07,
     "C03": check_C03,
